@@ -90,6 +90,10 @@ func runAssemble(r *Rng, n int, bin string, w io.Writer, stats map[string]int) {
 			if g > 0 && r.chance(8) {
 				o.Name = groups[r.intn(len(groups))].Name // duplicate names pass validation
 			}
+			if r.chance(12) {
+				// names that a careless normalisation would merge or rewrite (`default` is the one name with a meaning)
+				o.Name = r.pick("default", "Default", "DEFAULT", "default ", "G0", "g0 ", " g1", "g1.", "asg0")
+			}
 			o.DryMode = r.chance(35)
 			o.ScaleOnStarve = r.chance(20)
 			if r.chance(15) {
